@@ -15,7 +15,7 @@ RULE = ("one case = space-magnitude region (1..8 cells, 1..4 magnitude bins) x c
         "each, at least one non-empty; in memory or streamed from a written file) x observed catalog by class (empty, single event, events "
         "only in sampled cells, >= 1 event in a never-sampled cell, all events in never-sampled cells, many per cell). Checked: number, "
         "spatial, magnitude, pseudo-likelihood, resampled-magnitude and MLL tests (statistic, distribution, status, quantiles), calibration "
-        "test input. Non-trivial = J >= 3 with an empty synthetic catalog and an observation of >= 2 events; distinct = canonical JSON.")
+        "test input. 1 case in 12 repeats its synthetic catalogs 10x/25x (up to 300 catalogs); 1 in 4 runs with verbose=True. Non-trivial = J >= 3 with an empty synthetic catalog and an observation of >= 2 events; distinct = canonical JSON.")
 ASSUMPTIONS = ["mean rates = per-cell mean of the synthetic catalogs' gridded counts; spatial rate = its magnitude marginal (no area normalisation), N-bar = its total",
                "magnitude statistics use log10 as implemented (the documentation writes 'log' without base)",
                "MLL statistic = +2*log(L(merged)/(L(union)L(catalog))) as in the MLL_score docstring",
@@ -99,7 +99,7 @@ def check_case(ctx, case):
     VB = bool(case.get("verbose"))     # progress output on: same results (stdout of a shard goes to devnull)
     if VB:
         ctx.count("cases_with_verbose_on")
-    cats = [[tuple(e) for e in c] for c in case["cats"]]
+    cats = [[tuple(e) for e in c] for c in case["cats"]] * case.get("repeat", 1)     # "repeat": many synthetic catalogs
     obs = [tuple(e) for e in case["obs"]]
     J = len(cats)
     cj = [S.counts(c) for c in cats]
@@ -320,7 +320,8 @@ def cases(draw):
     else:
         obs = mk(sampled, draw(st.integers(1, 6)))
     return {"setup": setup, "cats": cats, "obs": obs, "source": draw(st.sampled_from(["list", "file_store", "file_nostore"])),
-            "seed": draw(st.sampled_from([0, 1, 12345])), "obs_class": cls, "verbose": draw(st.integers(0, 3)) == 0}
+            "seed": draw(st.sampled_from([0, 1, 12345])), "obs_class": cls, "verbose": draw(st.integers(0, 3)) == 0,
+            **({"repeat": draw(st.sampled_from([10, 25]))} if draw(st.integers(0, 11)) == 0 else {})}
 
 
 def run(ctx):
